@@ -68,8 +68,23 @@ class Ctx:
             return Explorer(self.ix, self.pta, **kw)
         from .rules import caches
         cold = caches.all_cold_fields(self)
-        return Explorer(self.ix, self.pta, cold_fields=cold, on_cold_read=self._caches_used.add,
-                        cold_invalidators=getattr(self, '_cold_invalidators', {}), **kw)
+        ex = Explorer(self.ix, self.pta, cold_fields=cold, on_cold_read=self._caches_used.add,
+                      cold_invalidators=getattr(self, '_cold_invalidators', {}), **kw)
+        # what was analysed: functions explored, paths enumerated, events on them (reported in the evidence)
+        orig = ex.explore
+        stats = self.analysed.setdefault('path_summaries', {'functions_explored': 0, 'paths': 0, 'events': 0,
+                                                            'functions': []})
+
+        def explore(fn, args=None, heap=None):
+            ps = orig(fn, args=args, heap=heap)
+            stats['functions_explored'] += 1
+            stats['paths'] += len(ps)
+            stats['events'] += sum(len(p.events) for p in ps)
+            if fn.short not in stats['functions'] and len(stats['functions']) < 60:
+                stats['functions'].append(fn.short)
+            return ps
+        ex.explore = explore
+        return ex
 
     # -- ledger -----------------------------------------------------------
     def rule(self, rid: str, text: str):
